@@ -151,6 +151,9 @@ def check(F, rep, tier):
             reach2 = cg.closure([fm.path], generic=False)
             if f.path in reach2: rep.ok("R10.5", "max_by comparator reaches <SemVer as Ord>::cmp", nontrivial_key="maxby")
             else: rep.bad("R10.5", "max-by-other-order", "the comparator used to choose the greatest tag does not reach <SemVer as Ord>::cmp", fm.where())
+    # ---- R10.6 what the comparator sees: numeric identifiers are classified on their full u64 range ---------------
+    import parsers
+    parsers.numeric_classification(F, rep, "R10.6", "crate::version::semver::parser::", ("PreReleaseIdentifier",), floor=1)
     rep.extra["abstract_assignments_evaluated"] = evals
     return core.finish(rep, explanation=EXPL, assumptions=ASSUME, trusted=TRUST)
 
